@@ -68,6 +68,18 @@ func c08Enumerate(tier string, yield func(any)) {
 		}
 	}
 	rec(nil)
+	if tier != "thorough" {
+		// quick: also the profile lists of length 3 whose entries are not optional (thorough has all of length 3)
+		for _, a := range entries {
+			for _, b := range entries {
+				for _, c := range entries {
+					if !a.Opt && !b.Opt && !c.Opt {
+						yield(&c08Case{Prof: []c08PEntry{a, b, c}, MaxCert: maxC})
+					}
+				}
+			}
+		}
+	}
 	// long certificate lists: the entries a profile entry has to find stand behind 60..256 others
 	longProfiles := [][]c08PEntry{
 		{{1, 1, false, true}}, {{1, 1, false, false}}, {{1, 2, false, true}, {1, 1, false, false}}, {{1, 2, true, false}, {1, 1, false, true}},
@@ -228,7 +240,7 @@ func init() {
 	register(&engine.Check{
 		ID:          "C08",
 		Level:       "model_checking",
-		Rule:        "every profile extension list of length <=2 (quick) / <=3 (thorough) over 24 entries (OID {A,B} x content {1,2,none} x optional x override) x every certificate extension list of length <=3 / <=4 over 6 entries: real config.Merge on a harness ExtensionConfig type vs. the 15-line reference merge transcribed from the statement, plus input-unchanged comparison; 6 profile lists against certificate lists of 33..259 extensions (the matched entries behind 31..257 others); and the file pipeline with real extension kinds (profile lists <=2 x certificate lists <=2 over 4 kinds): certificate extension list vs. reference, content-less survivor => error and no file; then the same profile shared by three certificates in one run (inheriting everything / the list / the list reversed), each compared with the reference merge of its own list. Pairs distinct by construction; states = profile lists, transitions = Merge calls / runs",
+		Rule:        "every profile extension list of length <=2 (quick; plus those of length 3 without optional entries) / <=3 (thorough) over 24 entries (OID {A,B} x content {1,2,none} x optional x override) x every certificate extension list of length <=3 / <=4 over 6 entries: real config.Merge on a harness ExtensionConfig type vs. the 15-line reference merge transcribed from the statement, plus input-unchanged comparison; 6 profile lists against certificate lists of 33..259 extensions (the matched entries behind 31..257 others); and the file pipeline with real extension kinds (profile lists <=2 x certificate lists <=2 over 4 kinds): certificate extension list vs. reference, content-less survivor => error and no file; then the same profile shared by three certificates in one run (inheriting everything / the list / the list reversed), each compared with the reference merge of its own list. Pairs distinct by construction; states = profile lists, transitions = Merge calls / runs",
 		Bound:       map[string]string{"profile list": "quick<=2 thorough<=3", "certificate list": "quick<=3 thorough<=4", "OIDs": "2", "contents": "2 + none"},
 		Assumptions: []string{"'differs' is configuration-entry difference (the statement's wording), modelled by the JSON form of the harness type"},
 		Budget:      budgets(quickBudget, thoroughBudget),
